@@ -8,7 +8,9 @@ never start with the terminator, names have no leading/trailing blanks.
 from __future__ import annotations
 
 WORDS = ["alpha", "beta", "Gamma", "ÄÖÜ", "ñandú", "日本", "x1", "a:b", "c#d", "e@f", "g|h", "\"q\"", "'s'", "(p)", "100%",
-         "given", "and", "then", "feature:", "-", "*star", "<lt", "gt>", "&amp;", "\\n", "tab\there", "Ω"]
+         "given", "and", "then", "feature:", "-", "*star", "<lt", "gt>", "&amp;", "\\n", "tab\there", "Ω",
+         # characters that text normalisation would change: NO-BREAK SPACE inside a word, decomposed accents, OHM SIGN
+         "1\u00a0000,50\u00a0€", "Cafe\u0301", "\u2126hm", "a\u0308b"]
 TAGWORDS = ["a", "b", "wip", "x.y", "k=v", "slow:3", "ÄÖ", "t-1", "@at", "use.with_os=linux", "p(1)", "q;r", "<x>", "bug#42", "i#"]
 STEP_TYPES = ("given", "when", "then", "and", "but")
 
